@@ -404,6 +404,14 @@ func (x *impl) candidate(muts []string) *types.Block {
 			if i := slot(arg); i >= 0 {
 				pre[i] = sign(i, i, hc, rc, types.VoteTypePrecommit, types.BlockID{}, false)
 			}
+		case "nilblock-badsig": // a precommit that does not count for the block AND does not verify
+			if i := slot(arg); i >= 0 {
+				pre[i] = sign(i, i, hc, rc, types.VoteTypePrecommit, types.BlockID{}, true)
+			}
+		case "otherblock-badsig":
+			if i := slot(arg); i >= 0 {
+				pre[i] = sign(i, i, hc, rc, types.VoteTypePrecommit, other, true)
+			}
 		case "type":
 			if i := slot(arg); i >= 0 {
 				pre[i] = sign(i, i, hc, rc, types.VoteTypePrevote, s.LastBlockID, false)
@@ -522,7 +530,9 @@ func (x *impl) recount(b *types.Block) (string, bool) {
 			continue
 		}
 		if !pk.VerifyBytes(types.SignBytes(s.ChainID, v), v.Signature) {
-			continue
+			// "carries a verifiable commit": what is stored as the commit of the previous block must verify slot by
+			// slot, also the precommits for nil or for another block that do not count towards the 2/3
+			return fmt.Sprintf("the precommit in slot %d of the last commit does not verify under the key of its slot", pos), false
 		}
 		if v.Type != types.VoteTypePrecommit || v.Height != s.LastBlockHeight || !bytes.Equal(v.BlockID.Hash, s.LastBlockID.Hash) ||
 			v.BlockID.PartsHeader.Total != s.LastBlockID.PartsHeader.Total || !bytes.Equal(v.BlockID.PartsHeader.Hash, s.LastBlockID.PartsHeader.Hash) {
@@ -593,7 +603,7 @@ func main() {
 	R := r.R
 	header := []string{"chainid", "height+", "height-", "numtxs", "lbid-hash", "lbid-total", "lbid-phash", "datahash", "data", "data-rehash",
 		"apphash", "receiptshash", "lchash", "valhash", "valhash-lastvals", "proposer-stranger", "proposer-other"}
-	commitM := []string{"drop", "dropmany", "allnil", "dup", "foreignheight", "foreignround", "allround", "badsig", "wrongkey", "nilblock", "type",
+	commitM := []string{"drop", "dropmany", "allnil", "dup", "foreignheight", "foreignround", "allround", "badsig", "wrongkey", "nilblock", "nilblock-badsig", "otherblock-badsig", "type",
 		"otherblock", "allother", "fill", "extranil", "extravote", "fewer", "noslots", "cbid-zero", "cbid-other", "swap", "slotidx", "slotaddr", "h1vote"}
 	seqs := r.Scale(14, 160)
 	for q := 0; q < seqs; q++ {
